@@ -73,3 +73,9 @@ claim("C17",
       "Decides ONLY the no-panic / prompt-return structure and two routing bindings of the cluster layer: CAS-guarded stop protocol of every component; every counted goroutine is added before start and defers Done; every channel field is closed once by its owning goroutine or under the task lock with unregistering, and every send on a closable channel is recover-guarded / in the closing function / under the closer's lock; every blocking operation of a waited goroutine has a cancellation arm; no blocking send under the task lock; AddTask paired with a deferred RemoveTask of the same request; a report is sent on the channel looked up by its own task id and carries the reporting collector's id.",
       "Trusted: go/ssa, context cancellation, ants.Pool.Submit treated as asynchronous. NOT decided (not applicable to static analysis in reach): exactly-once delivery, per-connection order, replay to late subscribers, behaviour for all topologies and drop points.",
       "DESIGN.md §4 C17")
+
+claim("C08",
+      "provenance of the winning proof + edge-cut dominance of target/timestamp/acceptance gates + same-block pairing + loop re-test (reachability with stop set) + who-may-access",
+      "Structural skeleton of a mining round on every CFG path: the returned proof passed getValidProofs and getBindingProofs of the mining spaces' proofs for the template challenge; a template is built only behind best-quality > target(template timestamp) with qualities verified per proof and slot; slot and timestamp advance in one block; every slot evaluation re-tests quit and the stale monitor and is bounded by now+allowAhead; PoC hash after the header is final and signed by the winning space; ProcessBlock only after the timestamp passed; a height is recorded only after acceptance and never solved again; the double-mining map is touched by the generator's functions only.",
+      "Trusted: go/ssa, mass-core PoCTemplate/VerifiedQuality. NOT decided: that the maximum is the maximum and the slot the earliest (values/time); timing; engine.v2 miner (outside the property's anchors).",
+      "DESIGN.md §4 C08")
